@@ -370,6 +370,13 @@ def _assigned_in(stmts):
         def visit_FunctionDef(self, n):
             names.add(n.name)
 
+        def visit_Expr(self, n):
+            c = n.value
+            if isinstance(c, ast.Call) and isinstance(c.func, ast.Attribute) and c.func.attr in ("append", "extend") \
+                    and isinstance(c.func.value, ast.Name):
+                names.add(c.func.value.id)
+            self.generic_visit(n)
+
         def visit_Lambda(self, n):
             pass
 
@@ -641,9 +648,11 @@ class Evaluator:
         return [_Exit("fall", st)]
 
     def _s_Break(self, s, st):
+        self._emit("break", s, st)
         return [_Exit("break", st)]
 
     def _s_Continue(self, s, st):
+        self._emit("continue", s, st)
         return [_Exit("continue", st)]
 
     def _s_FunctionDef(self, s, st):
@@ -704,8 +713,8 @@ class Evaluator:
         pre = st
         body_st = st.fork(mk("inloop", lid))
         for n in names:
-            if n in pre.loc:
-                body_st.loc[n] = mk("loopvar", n, key_term, pre.loc[n])
+            # loop-carried: the value at the top of an iteration is the initial one or one left by an earlier iteration
+            body_st.loc[n] = mk("loopvar", n, key_term, pre.loc[n] if n in pre.loc else mk("undef", n))
         akeys = []
         for an in attrs:
             try:
